@@ -138,7 +138,7 @@ SCOPE_TEMPLATES = [
     ("aug-unbound-enclosing", "def outer():\n    n = 0\n    def inc():\n        n += 1\n        return n\n    try:\n        r = inc()\n    except NameError:\n        r = 'NameError-family'\n    return [r, n]\nR = outer()\n"),
     ("aug-local-ok", "def f(a):\n    a += 1\n    t = 2\n    t *= a\n    return t\nR = f(3)\n"),
     ("aug-global-decl", "g = 1\ndef f():\n    global g\n    g += 5\nf()\nR = g\n"),
-    ("global-decl-shadows-enclosing", "def f2(x):\n    def f3():\n        global x\n        def f4():\n            return x\n        return f4()\n    return f3()\ntry:\n    R = f2(4)\nexcept NameError:\n    R = 'NameError-family'\n", "global-decl-shadows-enclosing"),
+    ("global-decl-shadows-enclosing", "def f2(x):\n    def f3():\n        global x\n        def f4():\n            return x\n        return f4()\n    return f3()\ntry:\n    R = f2(4)\nexcept NameError:\n    R = 'NameError-family'\n"),
     ("unbound-free", "def f():\n    def inner():\n        return zq\n    return inner()\ntry:\n    R = f()\nexcept NameError as e:\n    R = 'NameError-family'\n"),
     ("loop-closures", "def mk():\n    fs = []\n    for i in range(3):\n        def f():\n            return i\n        fs.append(f)\n    return [h() for h in fs]\nR = mk()\n"),
     ("loop-closures-default", "def mk():\n    fs = []\n    for i in range(3):\n        def f(i=i):\n            return i\n        fs.append(f)\n    return [h() for h in fs]\nR = mk()\n"),
@@ -164,6 +164,22 @@ SCOPE_TEMPLATES = [
     ("lambda-global", "k = 3\nf = lambda q: q * k\nR = f(2)\n"),
     ("lambda-closure", "def mk(n):\n    return lambda q: q + n\ntry:\n    R = mk(1)(2)\nexcept NameError as e:\n    R = type(e).__name__\n", "native-closure"),
     ("lambda-in-comp", "try:\n    R = [f() for f in [lambda: i for i in range(3)]]\nexcept NameError as e:\n    R = type(e).__name__\n", "native-closure"),
+    ("annassign-closure", "def f():\n    v: int = 3\n    def g():\n        return v\n    return g()\nR = f()\n"),
+    ("annassign-shadow", "v = 1\ndef f():\n    def g():\n        return v\n    v: int = 3\n    return g()\nR = f()\n"),
+    ("list-target-closure", "def f():\n    [a, *b] = 1, 2, 3\n    def g():\n        return (a, b)\n    return g()\nR = f()\n"),
+    ("global-unexecuted", "g = 1\ndef f(flag):\n    if flag:\n        global g\n    g = 5\n    return g\nR = [f(False), g]\n"),
+    ("comp-var-not-local", "x = 1\ndef f():\n    r = [x for x in range(3)]\n    return x\nR = f()\n"),
+    ("comp-var-keeps-cell", "def f():\n    x = 10\n    def g():\n        return x\n    r = [x for x in range(3)]\n    return (x, g(), r)\nR = f()\n"),
+    ("comp-iter-uses-var", "def f():\n    x = [1, 2]\n    def g():\n        return x\n    r = [x for x in x]\n    return (x, g(), r)\nR = f()\n"),
+    ("nonlocal-before-bind", "def outer():\n    def setx():\n        nonlocal x\n        x = 5\n    setx()\n    y = x\n    x = 0\n    return y\nR = outer()\n"),
+    ("del-then-inner-sets", "def outer():\n    x = 1\n    def setx():\n        nonlocal x\n        x = 5\n    del x\n    setx()\n    return x\nR = outer()\n"),
+    ("handler-cell", "def f():\n    e = 1\n    def g():\n        return e\n    try:\n        raise ValueError(1)\n    except ValueError as e:\n        pass\n    e = 5\n    return g()\nR = f()\n"),
+    ("handler-del", "def f():\n    try:\n        raise ValueError(1)\n    except ValueError as e:\n        del e\n    return 3\nR = f()\n"),
+    ("import-closure", "def f():\n    import math as m\n    def g():\n        return m.floor(2.5)\n    return g()\ntry:\n    R = f()\nexcept NameError:\n    R = 'NameError-family'\n"),
+    ("dynamic-scope-leak", "x = 'global'\ndef P():\n    def F():\n        return x\n    return F()\ndef Q():\n    x = 'q-local'\n    def dummy():\n        return x\n    return P()\nR = Q()\n"),
+    ("comp-var-declared-global", "x = 1\ndef f():\n    global x\n    r = [x for x in (5, 6)]\n    return x\nR = [f(), x]\n", "comp-var-declared-global"),
+    ("del-missing-global", "x = 1\ndef f():\n    global x\n    del x\nf()\ntry:\n    f()\n    R = 'no error'\nexcept NameError:\n    R = 'NameError'\n"),
+    ("handler-declared-global", "y = 0\ndef f():\n    global y\n    try:\n        raise ValueError(3)\n    except ValueError as y:\n        r = y.args\n    return r\nR = f()\n"),
     ("posonly-kwargs", "def f(p, /, **kw):\n    return (p, kw)\ntry:\n    R = f(1, p=2)\nexcept TypeError:\n    R = 'TypeError'\n", "posonly-name-in-kwargs"),
 ]
 
@@ -175,7 +191,7 @@ class ScopeGen:
         self.rng = rng
         self.n = itertools.count(1)
 
-    def func(self, depth, enclosing_locals):
+    def func(self, depth, enclosing_locals, depth_nested=False):
         rng = self.rng
         name = f"f{next(self.n)}"
         params = rng.sample(["x", "y"], rng.randrange(0, 3))
@@ -183,8 +199,9 @@ class ScopeGen:
         decl = None
         locs = set(params)
         r = rng.random()
-        if r < 0.25 and enclosing_locals:
-            v = rng.choice(sorted(enclosing_locals))
+        if r < 0.25 and depth_nested:
+            # any name: programs whose enclosing functions never bind it are SyntaxErrors and are discarded
+            v = rng.choice(sorted(enclosing_locals)) if enclosing_locals and rng.random() < 0.7 else rng.choice(["x", "y"])
             if v not in params:
                 decl = ("nonlocal", v)
         elif r < 0.45:
@@ -192,7 +209,10 @@ class ScopeGen:
             if v not in params:
                 decl = ("global", v)
         if decl:
-            body.append(f"{decl[0]} {decl[1]}")
+            if decl[0] == "global" and rng.random() < 0.3:
+                body += ["if T('never', 0):", f"    {decl[0]} {decl[1]}"]   # a declaration counts even when not executed
+            else:
+                body.append(f"{decl[0]} {decl[1]}")
         nstm = rng.randrange(1, 5)
         inner_defs = []
         for _ in range(nstm):
@@ -211,10 +231,35 @@ class ScopeGen:
                 body.append(f"{v} += T('{name}.aug{v}', 1)")
                 if not decl or decl[1] != v:
                     locs.add(v)
+            elif k < 0.56:
+                # the other binding forms: each makes the name a local of this function (or binds the declared global)
+                form = rng.randrange(8)
+                tag = f"'{name}.b{form}{v}'"
+                if form == 0:
+                    body += [f"for {v} in (T({tag}, {rng.randrange(10)}),):", "    pass"]
+                elif form == 1:
+                    body.append(f"[{v}, *_r] = (T({tag}, {rng.randrange(10)}), 0)")
+                elif form == 2:
+                    body.append(f"{v}: int = T({tag}, {rng.randrange(10)})")
+                elif form == 3:
+                    body += [f"with CM(T({tag}, {rng.randrange(10)})) as {v}:", "    pass"]
+                elif form == 4:
+                    body.append(f"T({tag}, ({v} := {rng.randrange(10)}))")
+                elif form == 5:
+                    body += ["try:", f"    raise ValueError(T({tag}, {rng.randrange(10)}))", f"except ValueError as {v}:",
+                             f"    T('{name}.h{v}', {v}.args)"]
+                elif form == 6:
+                    body += ["try:", f"    del {v}", "except NameError:", f"    T('{name}.delfail{v}')"]
+                else:
+                    # a comprehension variable is NOT a local of the function
+                    body.append(f"T({tag}, [{v} for {v} in (1, {rng.randrange(2, 9)})])")
+                    form = None
+                if form is not None and (not decl or decl[1] != v):
+                    locs.add(v)
             elif k < 0.75:
                 body.append(f"T('{name}.read{v}', {v})")
             elif depth > 0:
-                sub_name, sub_src, sub_params = self.func(depth - 1, locs | enclosing_locals)
+                sub_name, sub_src, sub_params = self.func(depth - 1, locs | enclosing_locals, True)
                 body.extend(sub_src)
                 args = ", ".join(str(rng.randrange(5)) for _ in sub_params)
                 inner_defs.append((sub_name, args))
@@ -284,6 +329,254 @@ def canon_res(G, exc, log):
     return ";".join(log) + "|" + ",".join(f"{k}={vals[k]!r}" for k in sorted(vals))
 
 
+# ------------------------------------------------------------------ static name resolution (names stream)
+_COMP_NAMES = {"listcomp", "setcomp", "dictcomp", "genexpr", "lambda"}
+
+
+def install_probe(records):
+    """record what EvalFunc.resolve_nonlocals decided, read off the interpreter's own tables"""
+    from custom_components.pyscript import eval as ev
+    orig = ev.EvalFunc.resolve_nonlocals
+
+    async def wrapped(self, ast_ctx):
+        await orig(self, ast_ctx)
+        tables = list(reversed(ast_ctx.sym_table_stack + [ast_ctx.sym_table]))
+        parent = ast_ctx.curr_func
+        pwhere = getattr(parent, "_verif_where", {}) if parent is not None else {}
+        where = {}
+        for v in sorted(set(self.local_names or ()) | set(self.local_sym_table) | set(self.global_names) | {"x", "y"}):
+            if "." in v:
+                continue
+            if v in self.global_names:
+                where[v] = "global"
+                continue
+            cell = self.local_sym_table.get(v)
+            idx = None
+            if cell is not None:
+                idx = next((i for i, t in enumerate(tables) if t.get(v) is cell), None)
+            if idx is not None:
+                # the owner of a shared cell: the enclosing function if the cell is its own local, else the owner IT recorded
+                pw = pwhere.get(v)
+                if idx == 0 and pw == "local":
+                    where[v] = "cell1"
+                elif idx == 0 and pw and pw.startswith("cell"):
+                    where[v] = f"cell{1 + int(pw[4:])}"
+                else:
+                    where[v] = f"callers-table{idx}"        # not a lexically enclosing binding
+            elif cell is not None or v in (self.local_names or ()):
+                where[v] = "local"
+            else:
+                where[v] = "global"
+        self._verif_where = where
+        records.append({"name": self.func_def.name, "lineno": self.func_def.lineno,
+                        "locals": sorted(n for n in (self.local_names or ()) if "." not in n), "where": where})
+
+    ev.EvalFunc.resolve_nonlocals = wrapped
+    return lambda: setattr(ev.EvalFunc, "resolve_nonlocals", orig)
+
+
+def tgt_sx(t):
+    import ast
+    if isinstance(t, ast.Name):
+        return t.id
+    if isinstance(t, ast.Tuple):
+        return ["tuple"] + [tgt_sx(e) for e in t.elts]
+    if isinstance(t, ast.List):
+        return ["list"] + [tgt_sx(e) for e in t.elts]
+    if isinstance(t, ast.Starred):
+        return ["starred", tgt_sx(t.value)]
+    return "other"
+
+
+def stmts_sx(nodes):
+    """normal form of a function body for the Lean binding model: (kind (targets) (nested nodes)), not crossing a def;
+    nodes that carry no targets are replaced by their children"""
+    import ast
+    out = []
+    for n in nodes:
+        kind, tgts, cross = "plain", [], True
+        if isinstance(n, ast.Assign):
+            kind, tgts = "assign", n.targets
+        elif isinstance(n, ast.AugAssign):
+            kind, tgts = "aug", [n.target]
+        elif isinstance(n, ast.AnnAssign):
+            kind, tgts = "ann", [n.target]
+        elif isinstance(n, (ast.For, ast.AsyncFor)):
+            kind, tgts = "for", [n.target]
+        elif isinstance(n, (ast.With, ast.AsyncWith)):
+            kind, tgts = "with", [i.optional_vars for i in n.items if i.optional_vars is not None]
+        elif isinstance(n, ast.NamedExpr):
+            kind, tgts = "walrus", [n.target]
+        elif isinstance(n, ast.ExceptHandler):
+            kind, tgts = "handler", ([ast.Name(id=n.name, ctx=ast.Store())] if n.name else [])
+        elif isinstance(n, (ast.FunctionDef, ast.AsyncFunctionDef)):
+            kind, tgts, cross = "def", [ast.Name(id=n.name, ctx=ast.Store())], False
+        elif isinstance(n, ast.ClassDef):
+            kind, tgts, cross = "class", [ast.Name(id=n.name, ctx=ast.Store())], False
+        elif isinstance(n, ast.Lambda):
+            cross = False
+        elif isinstance(n, ast.Delete):
+            kind, tgts = "del", n.targets
+        elif isinstance(n, (ast.Import, ast.ImportFrom)):
+            kind = "import"
+            tgts = [ast.Name(id=(a.asname or a.name.split(".")[0]), ctx=ast.Store()) for a in n.names if a.name != "*"]
+        elif isinstance(n, (ast.ListComp, ast.SetComp, ast.DictComp, ast.GeneratorExp)):
+            kind, tgts = "comp", [g.target for g in n.generators]
+        nested = stmts_sx(list(ast.iter_child_nodes(n))) if cross else []
+        if kind == "plain" or not tgts:
+            out.extend(nested)
+        else:
+            out.append([kind, [tgt_sx(t) for t in tgts], nested])
+    return out
+
+
+def own_nodes(fn):
+    import ast
+    stack = list(fn.body)
+    while stack:
+        n = stack.pop()
+        yield n
+        if not isinstance(n, (ast.FunctionDef, ast.AsyncFunctionDef, ast.Lambda, ast.ClassDef)):
+            stack.extend(ast.iter_child_nodes(n))
+
+
+def fn_params(fn):
+    a = fn.args
+    return [p.arg for p in a.posonlyargs + a.args + a.kwonlyargs] + ([a.vararg.arg] if a.vararg else []) + \
+        ([a.kwarg.arg] if a.kwarg else [])
+
+
+def names_analysis(src, records):
+    """-> (driver lines, line kinds, expected outputs, static comparison problems)"""
+    import ast
+    import symtable
+    tree = ast.parse(src)
+    if any(isinstance(n, ast.ClassDef) for n in ast.walk(tree)):
+        return [], [], [], []
+    # function definitions with their chains of enclosing functions (innermost first)
+    fns = {}
+
+    def walk(node, chain):
+        for ch in ast.iter_child_nodes(node):
+            if isinstance(ch, (ast.FunctionDef, ast.AsyncFunctionDef)):
+                fns[(ch.name, ch.lineno)] = (ch, chain)
+                walk(ch, [ch] + chain)
+            elif not isinstance(ch, ast.Lambda):
+                walk(ch, chain)
+    walk(tree, [])
+    tabs = {}
+
+    def walk_t(t, chain):
+        for ch in t.get_children():
+            if ch.get_type() == "function" and ch.get_name() not in _COMP_NAMES:
+                tabs[(ch.get_name(), ch.get_lineno())] = (ch, chain)
+                walk_t(ch, [ch] + chain)
+            else:
+                walk_t(ch, chain)
+    walk_t(symtable.symtable(src, "t", "exec"), [])
+
+    def cpy_binds(t):
+        return sorted(sy.get_name() for sy in t.get_symbols() if sy.is_assigned() or sy.is_imported() or sy.is_parameter())
+
+    def cpy_where(t, chain, v):
+        try:
+            sy = t.lookup(v)
+        except KeyError:
+            return None
+        if sy.is_global():
+            return "global"
+        if sy.is_free():
+            for d, e in enumerate(chain, 1):
+                try:
+                    s2 = e.lookup(v)
+                except KeyError:
+                    continue
+                if s2.is_local():
+                    return f"cell{d}"
+            return "global"
+        return "local"
+
+    obs = {}
+    for r in records:
+        key = (r["name"], r["lineno"])
+        if key in fns:
+            prev = obs.setdefault(key, r)
+            if prev["where"] != r["where"] or prev["locals"] != r["locals"]:
+                # definitions executed several times may capture at different times; keep the first, note nothing
+                pass
+
+    def scope_of(fn, binds):
+        decl_g = sorted({v for n in own_nodes(fn) if isinstance(n, ast.Global) for v in n.names})
+        decl_n = sorted({v for n in own_nodes(fn) if isinstance(n, ast.Nonlocal) for v in n.names})
+        mentions = sorted({n.id for n in own_nodes(fn) if isinstance(n, ast.Name)} | set(decl_g) | set(decl_n) |
+                          {n.name for n in own_nodes(fn) if isinstance(n, (ast.FunctionDef, ast.AsyncFunctionDef))})
+        return [fn_params(fn), [b for b in binds], decl_g, decl_n, mentions]
+
+    def comp_only(fn):
+        """names that occur in fn's own body only inside comprehensions and are comprehension targets there: CPython 3.12
+        inlines comprehensions and then lists such variables among the function's symbols although they stay isolated"""
+        comps = [n for n in own_nodes(fn) if isinstance(n, (ast.ListComp, ast.SetComp, ast.DictComp, ast.GeneratorExp))]
+        inside = {id(m) for c in comps for m in ast.walk(c)}
+        targets = {m.id for c in comps for g in c.generators for m in ast.walk(g.target) if isinstance(m, ast.Name)}
+        outside = {n.id for n in own_nodes(fn) if isinstance(n, ast.Name) and id(n) not in inside}
+        outside |= {v for n in own_nodes(fn) if isinstance(n, (ast.Global, ast.Nonlocal)) for v in n.names}
+        return targets - outside - set(fn_params(fn))
+
+    lines, kinds, exp, problems = [], [], [], []
+    for key, r in sorted(obs.items()):
+        fn, chain = fns[key]
+        if key not in tabs or any((e.name, e.lineno) not in obs for e in chain):
+            continue
+        t, tchain = tabs[key]
+        # (c) the local names
+        body_sx = stmts_sx(fn.body)
+        conly = comp_only(fn)
+        ps_loc = sorted(set(r["locals"]))
+        cp_loc = [b for b in cpy_binds(t) if b not in conly]
+        params = set(fn_params(fn))
+        lines.append("C03 " + sx(["locals", body_sx]))
+        kinds.append(("locals", sorted(params)))
+        exp.append(f"model={','.join(ps_loc)} spec={','.join(cp_loc)}")
+        if ps_loc != cp_loc:
+            problems.append(f"{key[0]}: local names {ps_loc}, Python binds {cp_loc}")
+        # (b) where each mentioned name lives
+        own_mentions = {n.id for n in own_nodes(fn) if isinstance(n, ast.Name)} | \
+            {v for n in own_nodes(fn) if isinstance(n, (ast.Global, ast.Nonlocal)) for v in n.names}
+        for v in sorted(own_mentions & {"x", "y"} | (own_mentions & set(r["where"]) - {"T", "CM"})):
+            cw = cpy_where(t, tchain, v)
+            pw = r["where"].get(v)
+            if cw is None or pw is None or v in conly:
+                continue
+            if pw != cw:
+                problems.append(f"{key[0]}: name {v} resolves to {pw}, Python: {cw}")
+            ps_chain = [scope_of(e, [b for b in obs[(e.name, e.lineno)]["locals"] if b not in fn_params(e)]) for e in chain]
+            lines.append("C03 " + sx(["resolve", v, scope_of(fn, [b for b in r["locals"] if b not in params]), ps_chain]))
+            kinds.append(("m", None))
+            exp.append(f"model={pw}")
+            cp_chain = [scope_of(e, [b for b in cpy_binds(te) if b not in fn_params(e) and b not in comp_only(e)])
+                        for e, te in zip(chain, tchain)]
+            lines.append("C03 " + sx(["resolve", v, scope_of(fn, [b for b in cp_loc if b not in params]), cp_chain]))
+            kinds.append(("s", None))
+            exp.append(f"spec={cw}")
+    return lines, kinds, exp, problems
+
+
+def project(kind, out):
+    """the part of a driver answer that a names line is compared on"""
+    k, params = kind
+    m = re.match(r"model=(\S*) spec=(\S*)$", out)
+    if not m:
+        return out
+    if k == "m":
+        return f"model={m.group(1)}"
+    if k == "s":
+        return f"spec={m.group(2)}"
+    if k == "locals":
+        add = lambda part: ",".join(sorted(set(filter(None, part.split(","))) | set(params)))
+        return f"model={add(m.group(1))} spec={add(m.group(2))}"
+    return out
+
+
 async def ps_exec(src, G):
     import interp_env
     G.setdefault("__name__", "c03")          # a non-empty table: GlobalContext replaces an empty dict by a new one
@@ -293,20 +586,30 @@ async def ps_exec(src, G):
 
 
 async def run_scope(src):
+    import contextlib
     out = []
+    records = []
     for impl in ("ps", "cpy"):
         log = []
-        G = {"T": mk_T(log)}
+        G = {"T": mk_T(log), "CM": contextlib.nullcontext}
         exc = None
         try:
             if impl == "ps":
-                await ps_exec(src, G)
+                undo = install_probe(records)
+                try:
+                    await ps_exec(src, G)
+                finally:
+                    undo()
             else:
                 exec(compile(src, "t", "exec"), G)  # pylint: disable=exec-used
         except BaseException as e:  # pylint: disable=broad-except
             exc = e
         out.append(canon_res(G, exc, log))
-    return out
+    try:
+        lines, kinds, exp, problems = names_analysis(src, records)
+    except SyntaxError:
+        lines, kinds, exp, problems = [], [], [], []
+    return out[0], out[1], lines, kinds, exp, problems
 
 
 def bind_program(ssrc, names, has_va, has_kw, calls):
@@ -370,8 +673,14 @@ def run_impl(cases):
                 c.line = lines
                 c.impl = " ".join(f"model={a} spec={b}" for a, b in zip(ps, cpy))
             else:
-                c.payload["pyscript"], c.payload["cpython"] = r
-                c.impl = None
+                ps, cpy, lines, kinds, exp, problems = r
+                c.payload["pyscript"], c.payload["cpython"] = ps, cpy
+                c.payload["static_problems"] = problems
+                if lines:
+                    c.line, c.payload["line_kinds"] = lines, kinds
+                    c.impl = " ".join(exp)
+                else:
+                    c.impl = None
 
 
 def _execute(mod, cases, br):
@@ -389,9 +698,16 @@ def _execute(mod, cases, br):
         acc.setdefault(id(c), []).append(o)
     for c in cases:
         if isinstance(c.line, list):
-            c.model = " ".join(acc.get(id(c), []))
-            c.payload["model_lines"] = acc.get(id(c), [])
-            c.line = f"{len(c.line)} driver lines (one per call shape)"
+            outs_c = acc.get(id(c), [])
+            if c.payload["stream"] == "scope":
+                kinds = c.payload.pop("line_kinds")
+                outs_c = [project(k, o) for k, o in zip(kinds, outs_c)]
+                c.payload["names_lines"] = c.line[:40]
+                c.line = f"{len(c.line)} driver lines (local names per function, resolution per function and name)"
+            else:
+                c.line = f"{len(c.line)} driver lines (one per call shape)"
+            c.model = " ".join(outs_c)
+            c.payload["model_lines"] = outs_c
 
 
 _orig_execute = common._execute
@@ -426,6 +742,8 @@ def verdict(c):
     if c.payload["stream"] == "scope":
         if c.payload["pyscript"] != c.payload["cpython"]:
             return f"pyscript {c.payload['pyscript'][:300]!r} != CPython {c.payload['cpython'][:300]!r}"
+        if c.payload.get("static_problems"):
+            return "static name resolution differs from Python's: " + "; ".join(c.payload["static_problems"][:3])
         return None
     i = first_diff(c)
     if i is None:
@@ -483,12 +801,31 @@ def global_decl_shadows_enclosing(src):
     return False
 
 
+def comp_var_declared_global(src):
+    """syntactic feature of finding C03-F13: a function declares `global v` and its own body has a comprehension over v"""
+    import ast
+    try:
+        tree = ast.parse(src)
+    except SyntaxError:
+        return False
+    for fn in ast.walk(tree):
+        if not isinstance(fn, (ast.FunctionDef, ast.AsyncFunctionDef)):
+            continue
+        decl = {v for n in own_nodes(fn) if isinstance(n, ast.Global) for v in n.names}
+        for n in own_nodes(fn):
+            if isinstance(n, (ast.ListComp, ast.SetComp, ast.DictComp)):
+                for g in n.generators:
+                    if decl & {m.id for m in ast.walk(g.target) if isinstance(m, ast.Name)}:
+                        return True
+    return False
+
+
 def classify(c, reason):
     if c.payload["stream"] == "scope":
         f = list(c.payload.get("features", []))
-        if "random-nesting" in f and global_decl_shadows_enclosing(c.payload["src"]):
-            f.append("global-decl-shadows-enclosing")
-        for k in ("native-closure", "method-on-temporary", "global-decl-shadows-enclosing"):   # open findings
+        if "random-nesting" in f and comp_var_declared_global(c.payload["src"]):
+            f.append("comp-var-declared-global")
+        for k in ("native-closure", "method-on-temporary", "comp-var-declared-global"):   # open findings
             if k in f:
                 return k
         return "scope:" + "+".join(f)
